@@ -195,6 +195,7 @@ static void refuse_to_patch(std::ostream& out, std::ios_base::openmode mode, con
     if (!options.dry_run) {
         const auto reject_file = reject_path(options, output_file);
         out << " -- saving rejects to file " << reject_file;
+        ensure_parent_directories(reject_file);
         File file(reject_file, mode | std::ios::trunc);
 
         RejectWriter reject_writer(patch, file, options.reject_format);
@@ -623,6 +624,8 @@ int process_patch(const Options& options)
                 const auto reject_file = reject_path(options, output_file);
                 out << " -- saving rejects to file " << reject_file;
 
+                // The file being patched may be on its way to a directory which does not exist yet.
+                ensure_parent_directories(reject_file);
                 File file(reject_file, mode | std::ios::trunc);
                 tmp_reject_file.write_entire_contents_to(file);
             }
